@@ -108,15 +108,11 @@ class Judge:
             return b
         acc, group, detail = self.s.classify(b)
         if self.confirmed.get(group, 0) >= CONFIRM_MAX:
-            self.p.notes["short time-outs attributed to a confirmed hang"] += 1
             return b
         b2 = self.s.build(text, limit=long_limit(), **kw)
         if b2.kind == "Watchdog":
             g2 = self.s.classify(b2)[1]
             self.confirmed[g2] = self.confirmed.get(g2, 0) + 1
-            self.p.notes["hangs confirmed with the long limit"] += 1
-        else:
-            self.p.notes["slow builds that finished within the long limit"] += 1
         return b2
 
     def judge(self, rank, example, text, replay_extra=None, **kw):
@@ -222,7 +218,10 @@ def run():
     if core.SEED:   # seed only permutes the shard order
         import random
         random.Random(core.SEED).shuffle(order)
-    parts = scripts.pmap(work, [its[i] for i in order])
+    res = scripts.pmap(work, [its[i] for i in order])
+    parts = [None] * len(order)
+    for j, i in enumerate(order):      # merge in item order whatever the dispatch order was
+        parts[i] = res[j]
     found = {}
     for p in parts:
         for g, v in p.extra.pop("found").items():
